@@ -372,6 +372,8 @@ def c19(ctx):
     wire_check(ctx)
     # (1) histories: every well-formed history up to the bound, printed by TLC from Lsp.tla (its own invariants are checked on the way)
     hs = gen_lines(ctx, "Lsp", "Lsp_%s.cfg" % ctx.tier, "every LSP history up to the bound with the text each reply must come from", workers=4)
+    # one document opened, changed, re-opened (the client's version numbers restart), changed again, then one query
+    hs += gen_lines(ctx, "Lsp", "Lsp_reopen.cfg", "every open / change / re-open history of one document of length 6, then one query", workers=4)
     g = ctx.tlc("Lsp", "Lsp_sim.cfg", workers=1, simulate="num=%d" % (100 if ctx.tier == "quick" else 2000), depth=12,
                 extra=["-seed", str(ctx.seed)], label="random long histories (simulation)")
     sim = sorted(set(x[4:] for x in g["printed"] if x.startswith("GEN ")))
